@@ -209,7 +209,7 @@ def build(p):
             return sub[0](**kw)
         return sub[0](*stored)
     if k == "vmap":
-        axes = tuple(0 if a == 1 else None for a in p["x"])
+        axes = tuple({1: 0, 2: 1}.get(a) for a in p["x"])
         return sub[0].vmap(in_axes=axes)
     if k == "repeat":
         return sub[0].repeat(n=p["n"])
